@@ -490,7 +490,42 @@ func (c *leafCtx) expr8(e ast.Expr, want string) (string, string, bool) {
 				}
 			}
 		}
+	case *ast.SliceExpr: // b[lo:hi] as a value, on a byte-slice parameter the function does not write
+		if x.Low != nil && x.High != nil && x.Max == nil {
+			if id, ok := x.X.(*ast.Ident); ok && c.vars[id.Name] == "L_UInt8" && !c.madeHere[id.Name] {
+				for _, o := range c.outs {
+					if o == id.Name {
+						c.fail("sub-slice of a buffer the function writes")
+						return "0", want, true
+					}
+				}
+				lo, _ := c.expr(x.Low, "Int64")
+				hi, _ := c.expr(x.High, "Int64")
+				v := c.fresh("_s")
+				c.binds = append(c.binds, c.bindLine("(Go.subslice? "+c.lname(id.Name)+" "+lo+" "+hi+")", v, "opt:slice"))
+				c.needPrelude3 = true
+				return v, "L_UInt8", true
+			}
+		}
 	case *ast.CallExpr:
+		if f, ok := x.Fun.(*ast.SelectorExpr); ok && f.Sel.Name == "Uint16" && len(x.Args) == 1 { // binary.BigEndian.Uint16(b[off:])
+			if inner, ok := f.X.(*ast.SelectorExpr); ok && inner.Sel.Name == "BigEndian" {
+				if pk, ok := inner.X.(*ast.Ident); ok && pk.Name == "binary" {
+					se, isSl := x.Args[0].(*ast.SliceExpr)
+					if isSl && se.High == nil && se.Max == nil && se.Low != nil {
+						if id, ok := se.X.(*ast.Ident); ok && c.vars[id.Name] == "L_UInt8" {
+							off, _ := c.expr(se.Low, "Int64")
+							v := c.fresh("_u")
+							c.binds = append(c.binds, c.bindLine("(Go.beU16At? "+c.lname(id.Name)+" "+off+")", v, "opt:slice"))
+							c.needPrelude3 = true
+							return v, "UInt16", true
+						}
+					}
+					c.fail("binary.BigEndian.Uint16 on something other than b[off:] of a byte slice")
+					return "0", want, true
+				}
+			}
+		}
 		if f, ok := x.Fun.(*ast.SelectorExpr); ok && strings.HasPrefix(want, "T:") { // a leaf of the first generations returning a foreign struct (a tuple in field order)
 			if id, ok := f.X.(*ast.Ident); ok && !c.isValue(f.X) {
 				if gl, ok := globalLeaf[id.Name+"."+f.Sel.Name]; ok && gl[1] == "" {
@@ -550,6 +585,13 @@ func (c *leafCtx) stmt8(s ast.Stmt, next func(string) string, ind string) (strin
 					return c.takeBinds(ind) + c.actLine(ctor+" "+strings.Join(as, " ")) + nl + next(ind), true
 				}
 			}
+		}
+	case *ast.ForStmt:
+		if st.Init == nil && st.Post == nil && st.Cond != nil { // for cond { body } = for { if !cond { break }; body }
+			guard := &ast.IfStmt{If: st.For, Cond: &ast.UnaryExpr{OpPos: st.For, Op: token.NOT, X: &ast.ParenExpr{X: st.Cond}},
+				Body: &ast.BlockStmt{List: []ast.Stmt{&ast.BranchStmt{TokPos: st.For, Tok: token.BREAK}}}}
+			loop := &ast.ForStmt{For: st.For, Body: &ast.BlockStmt{Lbrace: st.Body.Lbrace, List: append([]ast.Stmt{guard}, st.Body.List...), Rbrace: st.Body.Rbrace}}
+			return c.for7(loop, next, ind), true
 		}
 	case *ast.GoStmt:
 		if !c.hasThread("w") {
